@@ -1156,6 +1156,28 @@ example : (List.range 4).map (C08.readIter memH vHr) = [1, 2, 0, 2] ∧
 end Mahotas.C12.Examples4
 
 
+/-! ## Round 4 — hand-written releases of the interpreter lock -/
+
+/-- a hand-written release is disciplined when a re-acquire follows it in the same function and nothing between the two can
+leave the function (no `return`, `throw`, `goto`, no dispatch macro whose catch clause returns) -/
+def rawSiteOk (s : Mahotas.Generated.RawGilSite) : Bool := decide (1 ≤ s.restores) && s.exits == 0
+
+/-- **C12-T2 (source tie, hand-written releases).** The translator extracts EVERY use of the interpreter's own release API
+(`PyEval_SaveThread`, `Py_BEGIN_ALLOW_THREADS`, `Py_UNBLOCK_THREADS`, `PyGILState_Release`) outside the body of the RAII class
+`gil_release` (`Generated.rawGilSites`, regenerated on every run; today the list is empty: the code base releases the lock only
+through the RAII object, whose sites `C12_release_sites_disciplined` covers). Each such site must be followed by a re-acquire in
+the same function with no exit in between — otherwise an error path returns to the interpreter without the lock (the fourth
+idiom, which none of the three proved skeletons covers). A release guarded by a size threshold whose error path skips the
+re-acquire (`if (size >= 4096) ts = PyEval_SaveThread(); … SAFE_SWITCH…; if (ts) PyEval_RestoreThread(ts);`) is rejected
+before any input runs. -/
+theorem C12_raw_release_sites_disciplined : Mahotas.Generated.rawGilSites.all rawSiteOk = true := by decide
+
+/-- the checker is not vacuous: it rejects the size-gated release whose dispatch macro can return in between, and a release
+that is never followed by a re-acquire; it accepts a straight-line `Py_BEGIN_ALLOW_THREADS … Py_END_ALLOW_THREADS` pair -/
+example : rawSiteOk ⟨"mahotas/_interpolate.cpp", "py_spline_filter1d", 387, "PyEval_SaveThread", 1, 3⟩ = false ∧
+    rawSiteOk ⟨"mahotas/_x.cpp", "f", 10, "PyEval_SaveThread", 0, 0⟩ = false ∧
+    rawSiteOk ⟨"mahotas/_x.cpp", "g", 20, "Py_BEGIN_ALLOW_THREADS", 1, 0⟩ = true := by decide
+
 /-! ## Round 4 — third table of access programs (`Model/C12Kernels3.lean`): `majority_filter`, `locmin_max` -/
 
 open Mahotas Mahotas.C12 in
